@@ -6,6 +6,7 @@ import (
 	"encoding/json"
 	"errors"
 	"fmt"
+	remoteexecution "github.com/bazelbuild/remote-apis/build/bazel/remote/execution/v2"
 	"io"
 	"math/rand"
 	"os"
@@ -33,19 +34,19 @@ type KeyDef struct {
 }
 
 type Step struct {
-	Do    string   `json:"do"` // start | rel | corrupt
-	P     string   `json:"p,omitempty"`
-	Op    string   `json:"op,omitempty"` // Put | Get | Fm | Comp
-	K     string   `json:"k,omitempty"`
-	Ks    []string `json:"ks,omitempty"`
-	Inst  string   `json:"inst,omitempty"` // instance name, components separated by "/"
-	Bad   string   `json:"bad,omitempty"` // "" | content | short | error
-	Child int      `json:"child,omitempty"`
-	Hold  bool     `json:"hold,omitempty"`
-	L     string   `json:"l,omitempty"`
-	N     int      `json:"n,omitempty"` // release the gate n times (default 1)
-	Exp   []Exp    `json:"exp,omitempty"`
-	HasExp bool    `json:"hasExp,omitempty"`
+	Do     string   `json:"do"` // start | rel | corrupt
+	P      string   `json:"p,omitempty"`
+	Op     string   `json:"op,omitempty"` // Put | Get | Fm | Comp
+	K      string   `json:"k,omitempty"`
+	Ks     []string `json:"ks,omitempty"`
+	Inst   string   `json:"inst,omitempty"` // instance name, components separated by "/"
+	Bad    string   `json:"bad,omitempty"`  // "" | content | short | error
+	Child  int      `json:"child,omitempty"`
+	Hold   bool     `json:"hold,omitempty"`
+	L      string   `json:"l,omitempty"`
+	N      int      `json:"n,omitempty"` // release the gate n times (default 1)
+	Exp    []Exp    `json:"exp,omitempty"`
+	HasExp bool     `json:"hasExp,omitempty"`
 }
 
 // Exp is a completion the design specification expects in a step.
@@ -66,15 +67,15 @@ type Script struct {
 }
 
 type world struct {
-	st    *Store
-	sc    *sched.Sched
-	log   *Log
-	keys  map[string]KeyDef
-	known map[string]string // content bytes -> name
-	wg    sync.WaitGroup
-	srcs  []*GatedReader
+	st     *Store
+	sc     *sched.Sched
+	log    *Log
+	keys   map[string]KeyDef
+	known  map[string]string // content bytes -> name
+	wg     sync.WaitGroup
+	srcs   []*GatedReader
 	busyMu sync.Mutex
-	busy  map[string]bool
+	busy   map[string]bool
 }
 
 func (w *world) content(k string) []byte {
@@ -87,6 +88,9 @@ func (w *world) content(k string) []byte {
 		return parent[h:]
 	}
 	kd := w.keys[k]
+	if w.st != nil && w.st.Cfg.Factory == "ac" {
+		return ContentAC(kd.Cid, kd.Size)
+	}
 	return Content(kd.Cid, kd.Size)
 }
 
@@ -132,7 +136,7 @@ func newWorld(cfg Config, keys map[string]KeyDef, coop bool, seed int64, gates [
 			panic("ambiguous contents: " + prev + " and " + k)
 		}
 		w.known[string(w.content(k))] = k
-		if keys[k].Size >= 2 {
+		if keys[k].Size >= 2 && cfg.Factory != "ac" {
 			w.known[string(w.content(k+"#0"))] = k + "#0"
 			w.known[string(w.content(k+"#1"))] = k + "#1"
 		}
@@ -208,7 +212,11 @@ func (w *world) doPut(ctx context.Context, s Step) {
 	case "content":
 		data = append([]byte(nil), good...)
 		if len(data) > 0 {
-			data[len(data)-1] ^= 0x55
+			if w.st.Cfg.Factory == "ac" {
+				data[0] |= 0x07 // the Action Cache has no checksum: "invalid" means it does not parse (wire type 7)
+			} else {
+				data[len(data)-1] ^= 0x55
+			}
 		}
 	case "short":
 		if len(data) > 0 {
@@ -230,7 +238,13 @@ func (w *world) doPut(ctx context.Context, s Step) {
 	src := NewGatedReader(w.sc, "src:"+s.P, items)
 	w.srcs = append(w.srcs, src)
 	w.log.Emit(map[string]any{"ev": "PutStart", "p": s.P, "k": s.K, "inst": comps(s.Inst), "valid": s.Bad == "", "size": len(good)})
-	err := w.st.Access.Put(ctx, d, buffer.NewCASBufferFromReader(d, src, buffer.UserProvided))
+	var b buffer.Buffer
+	if w.st.Cfg.Factory == "ac" {
+		b = buffer.NewProtoBufferFromReader(&remoteexecution.ActionResult{}, src, buffer.UserProvided)
+	} else {
+		b = buffer.NewCASBufferFromReader(d, src, buffer.UserProvided)
+	}
+	err := w.st.Access.Put(ctx, d, b)
 	msg := ""
 	if err != nil {
 		msg = err.Error()
@@ -314,7 +328,11 @@ func (w *world) corrupt(k string) bool {
 	if idx < 0 {
 		return false
 	}
-	w.st.Data.Corrupt(int64(idx))
+	if w.st.Cfg.Factory == "ac" {
+		w.st.Data.CorruptWith(int64(idx), c[0]^(c[0]|0x07)) // the first tag gets wire type 7 (0x82 -> 0x87, 0x68 -> 0x6f): the message no longer parses
+	} else {
+		w.st.Data.Corrupt(int64(idx))
+	}
 	w.log.Emit(map[string]any{"ev": "Corrupt", "k": k, "off": idx, "blk": 0})
 	return true
 }
@@ -531,6 +549,8 @@ func randomConfig(rng *rand.Rand, access string) (Config, map[string]KeyDef, int
 		IndexSlots: 61, MaxGet: 8, MaxPut: 16}
 	if rng.Intn(4) == 0 {
 		cfg.Factory = "raw"
+	} else if access == "flat" && rng.Intn(4) == 0 {
+		cfg.Factory = "ac" // an Action Cache: contents are ActionResult messages
 	}
 	if rng.Intn(3) == 0 {
 		cfg.Alloc, cfg.Sector, cfg.BlockSectors = "mem", 1, bs*unit
@@ -565,6 +585,9 @@ func randomConfig(rng *rand.Rand, access string) (Config, map[string]KeyDef, int
 				sz = 1 // at most one empty object: equal contents are the same CAS object
 			}
 			zero = true
+		}
+		if cfg.Factory == "ac" && sz == 1 {
+			sz = 2 // no ActionResult is one byte long
 		}
 		keys[fmt.Sprintf("k%d", i)] = KeyDef{Cid: 10 + i, Size: sz}
 	}
@@ -674,13 +697,17 @@ func TestRandom(t *testing.T) {
 				}
 				steps++
 				if canStart && (len(rel) == 0 || rng.Intn(2) == 0) {
-					if wantCorrupt && cfg.Alloc == "dev" && cfg.Factory == "cas" && rng.Intn(6) == 0 {
+					if wantCorrupt && cfg.Alloc == "dev" && (cfg.Factory == "cas" || cfg.Factory == "ac") && rng.Intn(6) == 0 {
 						w.corrupt(names[rng.Intn(len(names))])
 						continue
 					}
 					p := idle[rng.Intn(len(idle))]
 					w.log.SetCur(p)
-					w.start(randomOp(rng, p, names, access, false))
+					op := randomOp(rng, p, names, access, false)
+					if cfg.Factory == "ac" && op.Op == "Comp" {
+						op = Step{Do: "start", P: p, Op: "Get", K: op.K, Inst: op.Inst} // no composites in an Action Cache
+					}
+					w.start(op)
 					w.sc.Settle()
 					started++
 				} else {
@@ -717,6 +744,9 @@ func TestRandom(t *testing.T) {
 				defer wg.Done()
 				for i := 0; i < freeOps; i++ {
 					s := randomOp(prng, p, names, access, false)
+					if cfg.Factory == "ac" && s.Op == "Comp" {
+						s = Step{Do: "start", P: p, Op: "Get", K: s.K, Inst: s.Inst}
+					}
 					ctx := sched.WithProc(context.Background(), p)
 					func() {
 						defer func() {
